@@ -1,0 +1,94 @@
+//go:build verif
+
+// Machine-checked contracts for this package (comment-only; compiled only under the
+// build tag `verif`, where it still contains no code). Checked by /verif/govc.
+package keeper
+
+// Every stored price sits under the key built from its own asset, source and timestamp.
+//@ rowinv C16/priceKey table oracle:types.PriceKey row types.Price : row.Asset == key0 && row.Source == key1 && row.Timestamp == key2
+
+// What the prefix iterators select (that the byte prefixes select exactly these rows is what
+// the key lemmas of C16 are about; two of them are refuted, see known_findings.json).
+//@ prefixfamily types.PriceKeyPrefixAssetAndSource table oracle:types.PriceKey fixes 0,1 order 2
+//@ prefixfamily types.PriceKeyPrefixAsset table oracle:types.PriceKey fixes 0 order 1,2
+
+//@ func (Keeper).GetLatestPriceFromAssetAndSource
+//@ pure
+//@ forall t Int
+//@ ensures C16/that-asset-and-source: found ==> val.Asset == asset && val.Source == source && has(ctx, "oracle:types.PriceKey", asset, source, val.Timestamp)
+//@ ensures C16/nothing-newer-stored: found && has(ctx, "oracle:types.PriceKey", asset, source, t) ==> t <= val.Timestamp
+//@ ensures C16/not-found-means-none-stored: !found ==> !has(ctx, "oracle:types.PriceKey", asset, source, t)
+//@ modifies nothing
+
+//@ func (Keeper).GetLatestPriceFromAnySource
+//@ pure
+//@ forall t Int
+//@ forall s Str
+//@ ensures C16/that-asset: found ==> val.Asset == asset && has(ctx, "oracle:types.PriceKey", asset, val.Source, val.Timestamp)
+//@ ensures C16/not-found-means-none-stored: !found ==> !has(ctx, "oracle:types.PriceKey", asset, s, t)
+//@ modifies nothing
+
+// Source preference: Elys, then Band, then any.
+//@ func (Keeper).GetAssetPrice
+//@ pure
+//@ forall t Int
+//@ forall s Str
+//@ ensures C16/never-a-foreign-asset: result1 ==> result0.Asset == asset && has(ctx, "oracle:types.PriceKey", asset, result0.Source, result0.Timestamp)
+//@ ensures C16/elys-source-preferred: result1 && result0.Source != types.ELYS ==> !has(ctx, "oracle:types.PriceKey", asset, types.ELYS, t)
+//@ ensures C16/band-source-second: result1 && result0.Source != types.ELYS && result0.Source != types.BAND ==> !has(ctx, "oracle:types.PriceKey", asset, types.BAND, t)
+//@ ensures C16/newest-of-the-chosen-source: result1 && (result0.Source == types.ELYS || result0.Source == types.BAND) && has(ctx, "oracle:types.PriceKey", asset, result0.Source, t) ==> t <= result0.Timestamp
+//@ ensures C16/no-price-means-none-stored: !result1 ==> !has(ctx, "oracle:types.PriceKey", asset, s, t)
+//@ modifies nothing
+
+// 10^decimal as a fixed-point number; its value is not needed here (any value is allowed for).
+//@ func Pow10
+//@ pure
+//@ havoc-only
+
+//@ func (Keeper).GetAssetPriceFromDenom
+//@ ensures C16/no-asset-info-no-price: !snd(k.GetAssetInfo(ctx, denom)) ==> result == 0
+//@ ensures C16/no-live-price-no-price: snd(k.GetAssetInfo(ctx, denom)) && !snd(k.GetAssetPrice(ctx, fst(k.GetAssetInfo(ctx, denom)).Display)) ==> result == 0
+
+// Only a registered, active feeder writes a price; a rejected feed changes nothing; an
+// accepted feed is what a lookup at the block's time finds.
+//@ func (msgServer).FeedPrice
+//@ ensures C16/only-registered-active-feeders-write: err == nil ==> old(snd(k.GetPriceFeeder(goCtx, unbech32(msg.Provider)))) && old(fst(k.GetPriceFeeder(goCtx, unbech32(msg.Provider))).IsActive)
+//@ ensures C16/rejected-feed-changes-nothing: err != nil ==> !wrote(goCtx)
+//@ ensures C16/accepted-feed-is-stored: err == nil ==> snd(k.GetPrice(goCtx, msg.FeedPrice.Asset, msg.FeedPrice.Source, blockTime(goCtx))) && fst(k.GetPrice(goCtx, msg.FeedPrice.Asset, msg.FeedPrice.Source, blockTime(goCtx))).Price == msg.FeedPrice.Price
+//@ ensures C16/accepted-feed-touches-no-other-price: err == nil && anyT != blockTime(goCtx) ==> has(goCtx, "oracle:types.PriceKey", msg.FeedPrice.Asset, msg.FeedPrice.Source, anyT) == old(has(goCtx, "oracle:types.PriceKey", msg.FeedPrice.Asset, msg.FeedPrice.Source, anyT))
+//@ forall anyT Int
+
+//@ func (msgServer).FeedMultiplePrices
+//@ bound FeedPrices 2
+//@ ensures C16/only-registered-active-feeders-write: err == nil ==> old(snd(k.GetPriceFeeder(goCtx, unbech32(msg.Creator)))) && old(fst(k.GetPriceFeeder(goCtx, unbech32(msg.Creator))).IsActive)
+//@ ensures C16/rejected-feed-changes-nothing: err != nil ==> !wrote(goCtx)
+//@ ensures C16/every-accepted-feed-is-stored: err == nil ==> allOf(msg.FeedPrices, f, snd(k.GetPrice(goCtx, f.Asset, f.Source, blockTime(goCtx))))
+
+// ---- expiry at the end of the block -------------------------------------------------------------
+// The iteration over the price prefix yields stored prices, each once and under its own key.
+// That it yields EVERY stored price is the store iterator's contract (T5, assumed).
+//@ func (Keeper).GetAllPrice
+//@ ensures allOf(list, p, has(ctx, "oracle:types.PriceKey", p.Asset, p.Source, p.Timestamp) && sumOver(list, q, ite(q.Asset == p.Asset && q.Source == p.Source && q.Timestamp == p.Timestamp, 1, 0)) == 1)
+//@ modifies nothing
+//@ pure
+//@ trusted
+
+//@ define priceExpired(p, params, ctx) := p.Timestamp + params.PriceExpiryTime < blockTime(ctx) || p.BlockHeight + params.LifeTimeInBlocks < blockHeight(ctx)
+
+//@ func (Keeper).EndBlock
+//@ bound GetAllPrice!r 2
+//@ forall a Str
+//@ forall s Str
+//@ forall t Int
+//@ letold listed := k.GetAllPrice(ctx)
+//@ letold params := k.GetParams(ctx)
+//@ ensures C16/expired-prices-are-removed: allOf(listed, p, !priceExpired(p, params, ctx) || !has(ctx, "oracle:types.PriceKey", p.Asset, p.Source, p.Timestamp))
+//@ ensures C16/live-prices-are-kept: allOf(listed, p, priceExpired(p, params, ctx) || has(ctx, "oracle:types.PriceKey", p.Asset, p.Source, p.Timestamp))
+//@ ensures C16/nothing-is-added: has(ctx, "oracle:types.PriceKey", a, s, t) ==> old(has(ctx, "oracle:types.PriceKey", a, s, t))
+
+// ---- who writes prices ----------------------------------------------------------------------------
+// Besides the two feed handlers (feeder checks above), prices are written only at genesis, by
+// the store migration and by the Band oracle's IBC packet handler (source "band").
+//@ func (Keeper).SetPrice
+//@ callers C16/price-writers: (msgServer).FeedPrice, (msgServer).FeedMultiplePrices, InitGenesis, (Keeper).MigrateAllLegacyPrices, (IBCModule).handleOraclePacket
+//@ ensures C16/set-stores-under-own-key: snd(k.GetPrice(ctx, price.Asset, price.Source, price.Timestamp))
